@@ -109,6 +109,7 @@ func (n *vNode) snapshotWith(f func()) error {
 }
 
 type vNode struct {
+	logcache *raft.LogCache // what raft's replication reads from (in front of logStore, as in main())
 	gate     *vGateFSM
 	dir      string
 	raft     *raft.Raft
@@ -220,7 +221,7 @@ func vStartNodeAs(dir string, bootstrap, follower bool) (*vNode, error) {
 	}
 	h := api.NewHTTP(ircServer, r, ircStore, outputStream, &rafthttp.HTTPTransport{}, *network, *networkPassword, dir, vPeerAddr, *useProtobuf, 3)
 	fsm.ReplaceState = h.ReplaceState
-	n := &vNode{dir: dir, raft: r, fsm: fsm, api: h, logStore: logStore, fss: fss, trans: trans, gate: gate}
+	n := &vNode{dir: dir, raft: r, fsm: fsm, api: h, logStore: logStore, fss: fss, trans: trans, gate: gate, logcache: logcache}
 	if follower {
 		return n, nil
 	}
